@@ -31,6 +31,10 @@ TECHNIQUE = (
     "frame by frame with a reference interpreter of the IR"
 )
 PATHS = ["string", "file", "lookup", "moddir", "moddir2", "tmodlink"]
+# warning grid only: a module file is already there, fresh enough, written by "another Mako" (other _magic_number):
+# modmagic = TemplateLookup, lower number, same layout; tmodmagic = Template(filename=, module_directory=), higher number,
+# old layout two lines longer (its own line map shifted accordingly)
+MAGIC_PATHS = ["modmagic", "tmodmagic"]
 ACTIONS = ["always", "once", "error"]
 PRINCIPAL = ["r_expr", "r_code2"]
 
@@ -49,7 +53,8 @@ BOUNDS = {
         "raise_full_product": "weight<=1 over all 32 kinds, LF: every position x 13 raise kinds x 6 paths",
         "raise_rotated": "weight 2 over 7 kinds (QUICK2_KINDS) LF and weight<=1 over all kinds CRLF: every (program,position,kind) "
         "on one rotating path; plus weight 2 over {t1, include, inh} (text before an include / inherit chain) + HTML page for the 2 principal kinds and format_exceptions on one path",
-        "warn": "weight<=1 (all kinds, LF) and weight 2 over {ablock, defb}: every position x 8 warning plants x 6 paths x {always,error}, 'once' on one rotating path",
+        "warn": "weight<=1 (all kinds, LF) and weight 2 over {ablock, defb}: every position x 8 warning plants x 6 paths x {always,error}, 'once' on one rotating path; "
+        "the same x 2 stale-magic routes (module file present, fresh, _magic_number -1 / +1 with a longer old layout)",
         "recompiled_module_file": "weight<=1 all kinds LF: every position x {${1/0}, <% %> line 2, <%! %> function, 4 warning plants} x "
         "{same lookup with filesystem_checks, new lookup on the same module directory}: version 1 -> observe -> 2 lines inserted "
         "at the top of every file, 10 s later -> reload in the same process -> observe",
@@ -86,6 +91,8 @@ ASSUMPTIONS = [
     "CPython eval/exec/compile (with line offsets), traceback.extract_tb and the warnings module are trusted",
     "a template line ends at \"\\n\" only: the filler words of every seed carry one character that str.splitlines() would also "
     "split at (FF, U+2028, NEL, FS); the reported source line is compared with source.split('\\n')[line-1]",
+    "stale-magic routes (warning grid): the old module is imported, found to be another release's, written again and imported "
+    "again, so the literal's warning is emitted once or twice; the count is not demanded there, the location of every showing is",
     "construction paths: string, file, lookup, moddir (TemplateLookup whose module_directory goes through a symbolic link), "
     "moddir2 (plain module directory, re-opened), tmodlink (Template(filename=, module_directory=via a symbolic link))",
     "the reference interpreter (mc/c12_ir.py, ~250 lines) implements DESIGN Appendix A for the enabled constructs only; "
@@ -165,6 +172,27 @@ def build(low, path, d, kw=None):
     elif path == "lookup":
         b.lookup = TemplateLookup(directories=[d], **kw)
         b.main = b.lookup.get_template(low.main)
+    elif path in MAGIC_PATHS:
+        m = os.path.join(d, "_mods")
+        dirs = [d] if path == "modmagic" else ["/"]
+        with warnings.catch_warnings():
+            warnings.simplefilter("ignore")
+            lk0 = TemplateLookup(directories=dirs, module_directory=m)
+            for uri in low.files:
+                lk0.get_template(uri if path == "modmagic" else d + uri)
+            del lk0
+        for root, _dirs, fns in os.walk(m):
+            for fn in fns:
+                if fn.endswith(".py"):
+                    other_magic(os.path.join(root, fn), -1 if path == "modmagic" else 1, 0 if path == "modmagic" else 2)
+        if path == "modmagic":
+            b.lookup = TemplateLookup(directories=dirs, module_directory=m, **kw)
+            b.main = b.lookup.get_template(low.main)
+        else:
+            b.lookup = TemplateLookup(directories=dirs, module_directory=m, **kw) if len(low.files) > 1 else None
+            b.main = Template(filename=d + low.main, module_directory=m, lookup=b.lookup, **kw)
+            for uri in low.files:
+                b.names[uri] = {d + uri}
     elif path == "tmodlink":
         # Template(filename=, module_directory=) whose module directory is reached through a symbolic link
         os.makedirs(os.path.join(d, "_releases", "42"))
@@ -194,6 +222,26 @@ def build(low, path, d, kw=None):
     else:
         raise ValueError(path)
     return b
+
+
+def other_magic(path, delta, shift):
+    """rewrite a generated module file as if another Mako had written it: _magic_number +- 1 and, with shift > 0, `shift`
+    more lines at its top with its recorded line map moved accordingly; the file stays as new as the template"""
+    import json
+
+    with open(path, encoding="utf-8", newline="") as fh:
+        text = fh.read()
+    text, n = re.subn(r"(?m)^_magic_number = (\d+)$", lambda mm: "_magic_number = %d" % (int(mm.group(1)) + delta), text)
+    assert n == 1, path
+    if shift:
+        mm = re.search(r"__M_BEGIN_METADATA\n(.+?)\n__M_END_METADATA", text, re.S)
+        meta = json.loads(mm.group(1))
+        meta["line_map"] = {str(int(k_) + shift): v for k_, v in meta["line_map"].items()}
+        text = text[: mm.start(1)] + json.dumps(meta) + text[mm.end(1):]
+        first, rest = text.split("\n", 1)  # line 1 is the coding comment
+        text = first + "\n" + "# written by another release\n" * shift + rest
+    with open(path, "w", encoding="utf-8", newline="") as fh:
+        fh.write(text)
 
 
 def registry(b, low):
@@ -318,7 +366,10 @@ class Checker:
             if r[4] not in b.names[uri]:
                 self.bad("tb:filename:" + path, "template frame reported under a name that is neither the filename nor the URI", sorted(b.names[uri]), r[4])
             src = low.files[uri]
-            if r[7] != src:
+            others = [t for u, t in low.files.items() if u != uri]
+            if r[7] != src and r[7] in others and any(o[0] == uri for o in obs):
+                self.bad("tb:revisited-template-carries-other-source", "a template that appears a second time in the traceback is reported with another template's source", src[:80], (r[7] or "")[:80])
+            elif r[7] != src:
                 self.bad("tb:template-source:" + path, "template source of the record is not the template's source", src[:200], (r[7] or "")[:200])
             ln = r[5]
             obs.append((uri, ln))
@@ -336,7 +387,10 @@ class Checker:
         if obs:
             st.oracles["lineno_source"] += 1
             uri, ln = obs[-1]
-            if ln and (rt.lineno != ln or rt.source != low.files[uri]):
+            revisited = any(o[0] == uri for o in obs[:-1]) and len({o[0] for o in obs}) > 1
+            if ln and rt.lineno == ln and revisited and rt.source != low.files[uri] and rt.source in low.files.values():
+                self.bad("tb:revisited-template-carries-other-source", "tb.source is another template's source (innermost template seen earlier in the traceback)", low.files[uri][:80], (rt.source or "")[:80])
+            elif ln and (rt.lineno != ln or rt.source != low.files[uri]):
                 self.bad("tb:lineno-source", "tb.lineno/tb.source are not the innermost template frame's", [ln, uri], [rt.lineno, (rt.source or "")[:60]])
         # traceback / reverse_traceback views
         st.oracles["views"] += 1
@@ -362,7 +416,10 @@ class Checker:
             st.transitions += 1
             try:
                 out = _html_template().render_unicode(error=err, traceback=tb)
-                self.check_html(out, [(f, l) for f, l, _fn, _s in fmt][::-1], obs[-1][1] if obs else None, "html")
+                revisited = bool(obs) and any(o[0] == obs[-1][0] for o in obs[:-1]) and rt.source != low.files[obs[-1][0]]
+                # the excerpt is cut from tb.source: when that is already reported as another template's source, the
+                # highlighted line is not judged a second time
+                self.check_html(out, [(f, l) for f, l, _fn, _s in fmt][::-1], obs[-1][1] if obs and not revisited else None, "html")
             except Exception as e:  # noqa
                 self.bad("html:raises:" + type(e).__name__, "html_error_template failed", None, repr(e)[:300])
 
@@ -447,15 +504,19 @@ def planted_of(rec, st):
     return planted
 
 
+def closure_in_block(low, site):
+    anc = low.positions[site]["anc"] if site is not None else []
+    return any(
+        k in ("ablock", "block") and any(x in ("defb", "defa", "defbuf", "ablock") for x in anc[i + 1:])
+        for i, k in enumerate(anc)
+    )
+
+
 def judge_shown(ck, planted, expected, names, kind, path, low, site, pfx=""):
     """the planted literal must be shown exactly once, under the template's name, at its line"""
     if len(planted) != len(expected):
         pos = low.positions[site] if site is not None else {"ctl": 0, "anc": []}
-        anc = pos["anc"]
-        closure_in_anon = any(
-            k in ("ablock", "block") and any(x in ("defb", "defa", "defbuf", "ablock") for x in anc[i + 1:])
-            for i, k in enumerate(anc)
-        )
+        closure_in_anon = closure_in_block(low, site)
         if kind in c12_ir.TOP_ONLY_PLANTS and pos["ctl"] and len(planted) > 1:
             sig = "warn:module-block-inside-control-structure:shown-%dx" % len(planted)
         elif closure_in_anon and len(planted) > 1:
@@ -482,6 +543,28 @@ def coarse(sig):
     if parts[0] == "warn" and len(parts) >= 3:
         return "warn:" + ":".join(parts[2:])
     return sig
+
+
+def judge_stale_magic(ck, planted, expected, names, kind, path, low, site):
+    """the module file is imported, found to be another release's, written again and imported again: the literal's
+    warning is emitted once or twice (the count is not fixed by the statement); every showing must be located"""
+    pfx = "stalemagic:"
+    uri, lines, cat, msg = expected[0]
+    if len(planted) > 2 and closure_in_block(low, site):
+        # the known double emission of a closure nested in a block, once per import
+        ck.bad("warn:closure-nested-in-block-emitted-twice:shown-%dx" % len(planted), "planted literal is shown %d times" % len(planted), expected, planted)
+        return
+    if not 1 <= len(planted) <= 2:
+        ck.bad(pfx + "warn:count=%d" % len(planted), "planted literal is shown %d times" % len(planted), expected, planted)
+        return
+    for i, (ocat, omsg, ofn, oln) in enumerate(planted):
+        which = "first" if i == 0 else "second"
+        if ocat != cat or msg not in omsg:
+            ck.bad(pfx + "warn:other-warning", "another warning than the planted one", [cat, msg], [ocat, omsg])
+        if ofn not in names.get(uri, ()):
+            ck.bad(pfx + "warn:filename:%s-import:%s" % (which, path), "warning of the %s import shown against a name that is neither the template's filename nor its URI" % which, sorted(names.get(uri, ())), ofn)
+        elif oln not in lines:
+            ck.bad(pfx + "warn:line:%s-import:%s" % (which, path), "warning of the %s import shown against another line than the planted one" % which, lines, oln)
 
 
 def hook_check(ck, st, before, when):
@@ -637,7 +720,9 @@ class Runner:
                 else:
                     if ref[0] == "ok" and out != ref[1]:
                         ck.bad("outcome:output", "rendered output differs from the reference", ref[1][:300], out[:300])
-                    if kind == "w_defdefault" and path == "moddir2":
+                    if path in MAGIC_PATHS:
+                        judge_stale_magic(ck, planted, expected, names, kind, path, low, site)
+                    elif kind == "w_defdefault" and path == "moddir2":
                         # the template is not compiled again; whether CPython repeats the warning for the module
                         # file depends on the literal surviving verbatim in it: not fixed by the statement
                         st.oracles["warn_dontcare_reopen"] += 1
@@ -936,7 +1021,9 @@ def run_program(r, body, pi, nl, scheme):
                 st.states += 1
                 if low.plant_info["warn"][0][1][0] > 1:
                     st.nontrivial += 1
-                for pj, path in enumerate(PATHS):
+                for pj, path in enumerate(PATHS + MAGIC_PATHS):
+                    if path in MAGIC_PATHS and kind == "w_defdefault":
+                        continue  # the regenerated signature carries no literal: nothing to observe on these routes
                     for action in ACTIONS:
                         if action == "once" and not r.allpaths_both and pj != (pi + si) % len(PATHS):
                             continue
